@@ -22,7 +22,18 @@ class Harness:
 
     def run_path(self, ctx):
         c, I = ctx, self.I
-        w = CloudWorld(I, ctx, self.page_size)
+        w = CloudWorld(I, ctx, self.page_size, concrete_ids=False, concrete_now=2_000_000_000)
+        # random draws: the one-byte draws decide 'run cleanup now?' (first draw of an add_version) and the snapshot
+        # urgency (second draw); cleanup yes/no is forked, the urgency draw is irrelevant here and fixed
+        draws = {'n': 0}
+
+        def rand_byte(I2, n, i):
+            if n != 1:
+                return None
+            draws['n'] += 1
+            if draws['n'] % 2 == 1:
+                return None          # 'run cleanup now?' stays a symbolic byte decided by z3
+            return 200
         servers = [w.new_server(k)[0] for k in range(self.nclients)]
         chain = []          # reference: [(parent, id, payload)]
         snaps = []          # reference: [(version, payload)]
@@ -36,15 +47,15 @@ class Harness:
             kind = ['add_version', 'get_child_version', 'add_snapshot', 'get_snapshot'][c.choose(4, 'call')]
             latest = chain[-1][1] if chain else 0
             if kind == 'add_version':
-                cands = [('latest', latest)]
-                if chain:
-                    cands.append(('older', chain[-1][0]))
-                    if not (isinstance(chain[-1][0], int) and chain[-1][0] == 0):
-                        cands.append(('nil', 0))
-                cands.append(('unknown', unknown))
-                pname, parent = cands[c.choose(len(cands), 'parent')]
-                payload = w.payload(c.choose(3, 'payload-len'))
+                # the parent is an arbitrary uuid: whether it is the latest version is decided by z3 at the
+                # comparison the real code makes
+                pname, parent = 'any', c.fresh_int('parent', 0, 2 ** 128 - 1)
+                w.known_uuid(parent)       # ids minted later are fresh: distinct from every uuid seen so far
+                payload = w.payload(step % 3)
+                draws['n'] = 0
+                I.env['rand_byte'] = rand_byte
                 r = w.run(w.f_add_version(srv, parent, clone_val(payload)))
+                I.env['rand_byte'] = None
                 log.append(('add_version', pname, parent, payload))
                 if r.variant != 0:
                     c.prove(False, 'add_version returned Err', wit, {'class': 'err', 'err': repr(r)[:120]})
@@ -67,8 +78,8 @@ class Harness:
                     c.cover('version rejected naming latest')
                     # nothing changed: the chain read back below must still be the reference chain
             elif kind == 'get_child_version':
-                cands = [('nil', 0)] + [('v%d' % i, v[1]) for i, v in enumerate(chain)] + [('unknown', unknown)]
-                pname, parent = cands[c.choose(len(cands), 'parent')]
+                pname, parent = 'any', c.fresh_int('parent', 0, 2 ** 128 - 1)
+                w.known_uuid(parent)       # ids minted later are fresh: distinct from every uuid seen so far
                 r = w.run(w.f_get_child_version(srv, parent))
                 log.append(('get_child_version', pname, parent))
                 if r.variant != 0:
@@ -154,12 +165,9 @@ def required_covers(tier):
 
 def configs(tier):
     if tier == 'quick':
-        return [dict(name='calls3x1', factory=lambda: Harness(3, 1, 'q1'),
-                     bounds='every sequence of 3 calls (add_version / get_child_version / add_snapshot / get_snapshot) from one client handle; parents: latest / older / nil / unknown; payloads of 0-2 symbolic bytes (length fixed per position); cleanup-now forked per add_version; then the chain is walked through a fresh handle'),
-                dict(name='calls2x2', factory=lambda: Harness(2, 2, 'q2'),
-                     bounds='every sequence of 2 calls from 2 client handles used one after the other')]
-    return [dict(name='calls3x2', factory=lambda: Harness(3, 2, 't'), bounds='3 calls from 2 client handles', time_limit_s=3300),
-            dict(name='calls4x1', factory=lambda: Harness(4, 1, 't4'), bounds='4 calls from one handle', time_limit_s=3300),
+        return [dict(name='calls3x2', factory=lambda: Harness(3, 2, 'q'),
+                     bounds='every sequence of 3 calls (add_version / get_child_version / add_snapshot / get_snapshot) from 2 client handles used one after the other; parents: an arbitrary symbolic uuid (latest / older / unknown decided by z3); payloads of 0-2 symbolic bytes (length fixed per position); version ids symbolic and distinct; "cleanup now?" a symbolic random byte; then the chain is walked through a fresh handle')]
+    return [dict(name='calls4x2', factory=lambda: Harness(4, 2, 't'), bounds='as quick with 4 calls', time_limit_s=3300),
             dict(name='calls3x2-page1', factory=lambda: Harness(3, 2, 'p1', page_size=1), bounds='3 calls, list page size 1', time_limit_s=3300)]
 
 
